@@ -31,11 +31,11 @@ RULE = (
 )
 ASSUMPTIONS = ["writes are observed through Python's audit events and stat snapshots (a C extension writing behind Python's back would only be seen by the snapshot, and only inside the scratch area)"]
 BUDGET = {"quick": (160, 4), "thorough": (6000, 16)}
-REQUIRED = ["failing_command", "nested_world", "flatten_existing_dest", "create_new_ascmhl", "tampered", "no_history", "readonly_ok", "create_sf"]
+REQUIRED = ["failing_command", "nested_world", "flatten_existing_dest", "flatten_relative_dest", "create_new_ascmhl", "tampered", "readonly_ok", "create_sf", "create_sf_beside_history"]
 
 CFG = {
     "kinds": ["create"] * 5 + ["create_sf"] + ["put_new", "overwrite", "rm", "mkdir", "mv"],
-    "min_steps": 0,
+    "min_steps": 1,
     "max_steps": 6,
     "flags": {"-n": 0.2},
     "min_top": 1,
@@ -47,8 +47,18 @@ PROBES = ["verify", "verify_sf", "verify_dh", "verify_dh_co", "verify_dh_ro", "v
 @st.composite
 def _scn(draw):
     scn = draw(hist.scenarios(CFG))
-    scn["damage"] = draw(st.sampled_from([None, None, None, "tamper", "rm_manifest", "rm_chain"]))
+    if draw(st.integers(0, 3)) == 0:
+        base = draw(st.sampled_from(["Clips", "s", "Reel1"]))
+        sib = base + draw(st.sampled_from(["_proxy", "2", " b"]))
+        if base not in scn["tree"] and sib not in scn["tree"]:
+            scn["tree"][base] = {"in.mov": "inside"}
+            scn["tree"][sib] = {"next.mov": "beside", "more.mov": "beside too"}
+            scn["steps"] = [{"op": "create", "root": base, "formats": ["md5"], "flags": []}, {"op": "create", "root": "", "formats": ["md5"], "flags": []}] + scn["steps"]
+    scn["damage"] = draw(st.sampled_from([None, None, None, None, "tamper", "rm_manifest", "rm_chain"]))
     scn["probes"] = draw(st.lists(st.tuples(st.sampled_from(PROBES), st.integers(0, 1000)).map(list), min_size=4, max_size=10))
+    if any(k in scn["tree"] for k in ("Clips", "s", "Reel1")):
+        # single-file create on an entry that merely shares a name prefix with a sibling history folder
+        scn["probes"].insert(draw(st.integers(0, len(scn["probes"]))), ["create_sf_beside_history", draw(st.integers(0, 1000))])
     return scn
 
 
@@ -56,8 +66,8 @@ def strategy(tier):
     return _scn()
 
 
-def classify_create_diff(w, changed, before, after, res):
-    """every changed path must be explained by a history that gained exactly one generation"""
+def classify_create_diff(w, changed, before, after, res, scope=None):
+    """every changed path must be explained by a history in scope that gained exactly one generation"""
     by_hist = {}
     for p in changed:
         parts = p.split("/")
@@ -76,6 +86,8 @@ def classify_create_diff(w, changed, before, after, res):
         require(ok, "create-touches-media", "create changed %r: %r -> %r (%s)" % (p, b, a, res.brief()), res)
     for h, paths in by_hist.items():
         ad = h + "/" + ASC
+        if scope is not None:
+            require(h in scope, "create-out-of-scope-history", "create wrote into the history at %r, in scope are only %s (%s)" % (h, sorted(scope), res.brief()), res)
         new_manifests = []
         for p in paths:
             b, a = before.get(p), after.get(p)
@@ -125,6 +137,7 @@ def run_case(scn, ctx):
         with open(w.abs("_flat/existing/keep.txt"), "w") as fh:
             fh.write("pre-existing content")
         nfl = 0
+        relcwd = None
         for probe, k in scn["probes"]:
             files = w.media_files(top)
             dirs = [top] + w.media_dirs(top)
@@ -140,7 +153,7 @@ def run_case(scn, ctx):
                     continue
                 args = ("verify", [w.abs(T), "-sf", w.abs(f)])
             elif probe == "verify_dh":
-                args = ("verify", [w.abs(T), "-dh"])
+                args = ("verify", [w.abs(T), "-dh"] + (["-v"] if k % 2 else []))
             elif probe == "verify_dh_co":
                 args = ("verify", [w.abs(T), "-dh", "-co"] + (["-v"] if k % 2 else []))
             elif probe == "verify_dh_ro":
@@ -170,23 +183,44 @@ def run_case(scn, ctx):
                 args = ("xsd_schema_check", [w.abs(cand[k % len(cand)]), "-xsd", xs] + (["-df"] if probe == "xsd_df" else []))
             elif probe == "flatten":
                 kind = "flatten"
-                if k % 2:
+                relcwd = None
+                if k % 3 == 1:
                     dest = "_flat/existing"
                     feats.add("flatten_existing_dest")
                 else:
                     nfl += 1
                     dest = "_flat/new%d" % nfl
                 allowed_prefix = dest
-                args = ("flatten", [w.abs(T), w.abs(dest)])
+                if k % 3 == 2:
+                    # relative destination, resolved against the working directory (which is not the source root)
+                    relcwd = w.abs("_flat")
+                    args = ("flatten", [w.abs(T), posixpath.basename(dest)])
+                    feats.add("flatten_relative_dest")
+                else:
+                    args = ("flatten", [w.abs(T), w.abs(dest)])
             else:
                 kind = "create"
                 base = [w.abs(T), "-h", gen.CLI_FORMATS[k % 6]]
-                if probe == "create_sf":
+                scope = None
+                if probe == "create_sf_beside_history":
+                    T = top
+                    base[0] = w.abs(T)
+                    sub = [x for x in files if any(x.startswith(r) and not w.under(x, r) for r in roots if r != top)]
+                    if not sub:
+                        continue
+                    target_file = sub[k % len(sub)]
+                    base += ["-sf", w.abs(target_file)]
+                    feats.add("create_sf_beside_history")
+                    scope = {T} | {r for r in roots if w.under(r, T) and w.under(target_file, r)}
+                elif probe == "create_sf":
                     sub = [x for x in files if w.under(x, T)]
                     if not sub:
                         continue
-                    base += ["-sf", w.abs(sub[k % len(sub)])]
+                    target_file = sub[k % len(sub)]
+                    base += ["-sf", w.abs(target_file)]
                     feats.add("create_sf")
+                    # in scope: the invoked root and the nested histories on the way down to the file
+                    scope = {T} | {r for r in roots if w.under(r, T) and w.under(target_file, r)}
                 elif probe == "create_n":
                     base += ["-n"]
                 elif probe == "create_dr":
@@ -195,10 +229,13 @@ def run_case(scn, ctx):
                     base += ["-i", "*.tmp", "-i", "zzz"]
                 elif probe == "create_sub":
                     base[0] = w.abs(dirs[k % len(dirs)])
+                if scope is None:
+                    inv = w.rel(base[0])
+                    scope = {inv} | {r for r in roots if w.under(r, inv)}
                 args = ("create", base)
             before = w.snapshot()
             with fsmon.monitor() as events:
-                res = w.run(*args)
+                res = w.run(*args, cwd=relcwd if kind == "flatten" else None)
             after = w.snapshot()
             ctx.event("invocations")
             ctx.event("probe_" + probe)
@@ -228,7 +265,7 @@ def run_case(scn, ctx):
                 keep = "_flat/existing/keep.txt"
                 require(before.get(keep) == after.get(keep), "flatten-clobbers", "flatten altered a pre-existing file in its destination", res)
             else:
-                classify_create_diff(w, changed, before, after, res)
+                classify_create_diff(w, changed, before, after, res, scope)
                 if any(p.endswith("/" + ASC) and p not in before for p in changed):
                     feats.add("create_new_ascmhl")
                 if res.exit_code in (31, 32, 33) or res.exc is not None:
